@@ -264,14 +264,15 @@ constexpr auto inverse_in(TargetUnits target_units, Quantity<U, R> q) {
     // (An extreme instance of this kind of lossiness would be the inverse of a nonzero value
     // getting represented as 0, which would happen for values over the threshold.)
 
-    // This will fail at compile time for types that can't hold 1'000'000.
-    constexpr R threshold = 1'000'000;
+    // We must not store the threshold in `R`: it would wrap around for types that can't hold
+    // 1'000'000, and inversions with a much smaller conversion constant would slip through.
+    constexpr auto threshold = 1'000'000;
 
     constexpr auto UNITY = make_constant(UnitProductT<>{});
 
     static_assert(
-        UNITY.in<R>(associated_unit(TargetUnits{}) * U{}) >= threshold ||
-            std::is_floating_point<R>::value,
+        std::is_floating_point<R>::value ||
+            stdx::cmp_greater_equal(UNITY.in<R>(associated_unit(TargetUnits{}) * U{}), threshold),
         "Dangerous inversion risking truncation to 0; must supply explicit Rep if truly desired");
 
     // Having passed safety checks (at compile time!), we can delegate to the explicit-Rep version.
